@@ -212,6 +212,14 @@ class C02(Prop):
                 for cuts in ([], [i], [i + 1], [i + 2], [i - 1, i + 1]):
                     parts = G.cut_at(s, cuts)
                     ctx.add("resp", [dels(parts)], group=("seg", s), stream=s, parts=parts)
+        # a repeated Content-Length (the joined value "a,b" is malformed whatever a and b are), every cut:
+        # the verdict must not depend on which of the two lines had been consumed when a call returned
+        for a, b in ((b"3", b"3"), (b"3", b"8"), (b"03", b"3"), (b"2", b"x")):
+            for mid in (b"", b"X: y\r\n"):
+                s = b"HTTP/1.1 200 OK\r\nContent-Length: " + a + b"\r\n" + mid + b"content-LENGTH: " + b + b"\r\nZ: z\r\n\r\nabcdefghij"
+                for i in range(1, len(s)):
+                    parts = G.cut_at(s, [i])
+                    ctx.add("resp", [dels(parts)], group=("seg", s), stream=s, parts=parts)
         maxn = ctx.n(10, 14)
         for s in shorts:
             free = min(len(s) - 1, maxn - 1)
@@ -340,6 +348,17 @@ class C05(Prop):
             if rng.random() < 0.5:
                 enc = G.mutate(rng, enc)
             ctx.add("resp", [dels([CHUNK_PREFIX + enc])], enc=enc)
+        # a Trailer header that announces some, all, none or other names than the trailer section carries:
+        # every decoded trailer field is merged whatever was announced
+        for _ in range(ctx.n(120, 1200)):
+            enc, payload, tf = G.gen_chunked(rng, 0.0)
+            names = [f.split(b":")[0] for f in tf if b":" in f]
+            ann = [n for n in names if rng.random() < 0.5] + [rng.choice([b"X-Other", b"Expires", b"x-checksum"]) for _ in range(rng.randint(0, 2))]
+            rng.shuffle(ann)
+            tl = rng.choice([b"Trailer", b"trailer", b"TRAILER"]) + b": " + rng.choice([b", ", b","]).join(ann)
+            pre = b"HTTP/1.1 200 OK\r\n" + (tl + b"\r\n" if ann or rng.random() < 0.3 else b"") + b"Transfer-Encoding: chunked\r\n" \
+                  + (b"Trailer: " + rng.choice(ann) + b"\r\n" if ann and rng.random() < 0.2 else b"") + b"\r\n"
+            ctx.add("resp", [dels([pre + enc])], enc=enc, prefix_len=len(pre))
         # exhaustive small world over the structural alphabet
         alpha = [b"0", b"5", b"a", b"F", b"g", b";", b"+", b"\r", b"\n", b"x"]
         maxlen = ctx.n(4, 6)
@@ -365,7 +384,7 @@ class C05(Prop):
                     yield [cid], f"round trip failed: payload={m['payload']!r} got {impl[cid][0][:200]}"
             elif f.get("v") == "C" and "payload" not in m:
                 # Complete => the consumed prefix is a well-formed chunked body (independent recogniser)
-                n = int(f["tot"]) - len(CHUNK_PREFIX)
+                n = int(f["tot"]) - m.get("prefix_len", len(CHUNK_PREFIX))
                 rec = parse_chunked_ref(m["enc"][:n])
                 if rec is None or rec != bytes.fromhex(f["b"]):
                     yield [cid], f"not a well-formed chunked body but reported complete: {m['enc'][:n]!r}"
@@ -460,6 +479,16 @@ class C06(Prop):
             m2 = G.gen_request(rng, 0.05)[0]
             trip = rng.choice(G.limit_triples(rng, meta1, 2))
             ctx.add("reusereq", list(trip) + [dels(rng.choice(G.schedules(rng, m1, 2))), dels(rng.choice(G.schedules(rng, m2, 2)))])
+        # very many small chunks / header lines / pipelined elements in ONE delivery: the work per call is
+        # a loop, its stack depth must not grow with the number of elements
+        for nchunks, solo in ((1200, False),) + ctx.n(((30000, True),), ((30000, True), (400000, True))):
+            body = b"1\r\nx\r\n" * nchunks + b"0\r\n\r\n"
+            ctx.add("resp", [dels([CHUNK_PREFIX + body])], impl_only=solo)
+            ctx.add("resp", [dels([CHUNK_PREFIX + b"1;e=1\r\ny\r\n" * (nchunks // 4) + b"0\r\nA: b\r\n\r\n"])], impl_only=solo)
+        for nh, solo in ((800, False), (ctx.n(5000, 40000), True)):
+            many = b"".join(b"X-%d: v\r\n" % i for i in range(nh))
+            ctx.add("resp", [dels([b"HTTP/1.1 200 OK\r\n" + many + b"\r\n"])], impl_only=solo)
+            ctx.add("req", ["d", "d", "-", dels([b"GET / HTTP/1.1\r\n" + many + b"\r\n"])], impl_only=solo)
         # multi-byte UTF-8 at every slicing position of the start lines / content type
         for w in (b"\xc3\xa9", b"\xe2\x82\xac", b"\xf0\x9f\x98\x80"):
             base = b"GET /a HTTP/1.1"
@@ -868,7 +897,7 @@ class C10(Prop):
                 if rng.random() < 0.5:
                     body = G.gen_chunked(rng, 0.0)[0]
                     hs = [(n, v) for n, v in hs if n.lower() != b"content-length"] + [(b"Content-Length", b"%d" % len(body))]
-            code = rng.choice([0, 1, 7, 99, 100, 200, 404, 599, 999])
+            code = rng.choice([0, 1, 7, 99, 100, 101, 199, 200, 204, 205, 304, 404, 599, 999])
             reason = rng.choice(G.REASONS)
             cut = rng.choice(["-", "-", "cr", str(rng.randrange(0, 400))])
             ctx.add("genresp", [code, hx(reason), hdrs_spec(hs), hx(body), cut], wf=True)
@@ -909,10 +938,20 @@ class C11(Prop):
         for t in (b"http://[::FFFF:1.2.3.4]/", b"/%", b"/%4", b"/%/x"):
             s = b"GET " + t + b" HTTP/1.1\r\n\r\n"
             ctx.add("rtreq", ["d", "d", "d", hx(s)], stream=s)
+        def sched(s):
+            # how the first parse receives the input: one call, or deliveries (often many small ones, so that
+            # bodies and chunked bodies arrive in three and more pieces)
+            r = rng.random()
+            if r < 0.5 or len(s) < 2:
+                return "-"
+            if r < 0.65:
+                step = rng.choice([1, 1, 2, 3, 7])
+                return dels([s[i:i + step] for i in range(0, len(s), step)])
+            return dels(G.cut_at(s, sorted(rng.sample(range(1, len(s)), min(len(s) - 1, rng.randint(2, 5))))))
         for s, meta in req_streams(ctx, ctx.n(800, 8000), p_odd=0.05, mutate_frac=0.3):
-            ctx.add("rtreq", ["d", "d", "d", hx(s), rng.choice(["-", "-", "cr", str(rng.randrange(0, 300))])], stream=s)
+            ctx.add("rtreq", ["d", "d", "d", hx(s), rng.choice(["-", "-", "cr", str(rng.randrange(0, 300))]), sched(s)], stream=s)
         for s, meta in resp_streams(ctx, ctx.n(800, 8000), p_odd=0.05, mutate_frac=0.3):
-            ctx.add("rtresp", [hx(s), rng.choice(["-", "-", "cr", str(rng.randrange(0, 300))])], stream=s)
+            ctx.add("rtresp", [hx(s), rng.choice(["-", "-", "cr", str(rng.randrange(0, 300))]), sched(s)], stream=s)
 
     def nontrivial(self, ctx, cid, canon):
         return canon.startswith("first=")
@@ -1048,6 +1087,10 @@ class C12(Prop):
 def add_decode_case(ctx, damaged=False, stack_only=False):
     rng = ctx.rng
     plain = G.gen_plain(rng, big=ctx.thorough and rng.random() < 0.1)
+    if rng.random() < 0.12:
+        # the representation is itself a compressed file (a .gz, a zlib or bare deflate stream): it must come
+        # back as it is, with exactly the listed codings undone and no more
+        plain = G.CODERS[rng.choice(["gzip", "gzip", "zlib", "raw"])](rng, plain[:2000])
     depth = rng.randint(1, 3)
     stack = [rng.choice(["gzip", "zlib", "raw"]) for _ in range(depth)]
     data = plain
@@ -1103,6 +1146,27 @@ class C13(Prop):
                     data = G.CODERS[c](ctx.rng, data)
                 ctx.add("dec", [hdrs_spec([("Content-Encoding", ", ".join(G.TOKEN_OF[c] for c in stack))]), hx(data)],
                         plain=plain, stack=stack, unknown_at=None)
+        # several decode_body calls one after the other on one thread: a failure that has already produced
+        # output (truncated stream, wrong checksum) followed by a valid body, which must decode to its content
+        rng = ctx.rng
+        for _ in range(ctx.n(60, 600)):
+            fmt1 = rng.choice(["gzip", "zlib", "raw"])
+            plain1 = G.gen_plain(rng) or b"x"
+            plain1 = (plain1 * (400 // len(plain1) + 1))[:rng.choice([300, 3000, 40000])]
+            d1 = G.CODERS[fmt1](rng, plain1)
+            if rng.random() < 0.5 or fmt1 == "raw":
+                d1 = d1[:len(d1) - rng.randint(1, 6)]
+            else:
+                i = len(d1) - rng.randint(1, 4)
+                d1 = d1[:i] + bytes([d1[i] ^ 0x41]) + d1[i + 1:]
+            stack = [rng.choice(["gzip", "zlib", "raw"]) for _ in range(rng.randint(1, 3))]
+            plain2 = G.gen_plain(rng)
+            d2 = plain2
+            for c in stack:
+                d2 = G.CODERS[c](rng, d2)
+            ctx.add("decseq", [hdrs_spec([("Content-Encoding", G.TOKEN_OF[fmt1])]), hx(d1),
+                               hdrs_spec([("Content-Encoding", ", ".join(G.TOKEN_OF[c] for c in stack))]), hx(d2)],
+                    plain=plain2, stack=stack, unknown_at=None, seq=True)
         # tiny bodies, plain 10-byte gzip header, every level
         for lvl in range(10):
             for body in (b"", b"a", b"ab", b"abc"):
@@ -1120,10 +1184,11 @@ class C13(Prop):
 
     def relations(self, ctx, impl):
         for cid, m in ctx.meta.items():
-            f = fields_of(impl[cid][0])
+            last = impl[cid][0].split("|")[-1] if m.get("seq") else impl[cid][0]
+            f = fields_of(last)
             if m.get("unknown_at") is None:
-                if not impl[cid][0].startswith("ok;") or bytes.fromhex(f["b"]) != m["plain"]:
-                    yield [cid], f"stack {m['stack']} not inverted: {impl[cid][0][:80]}"
+                if not last.startswith("ok;") or bytes.fromhex(f["b"]) != m["plain"]:
+                    yield [cid], f"stack {m['stack']} not inverted{' (after an earlier failed decode on the same thread)' if m.get('seq') else ''}: {last[:80]}"
 
 
 class C14(Prop):
@@ -1421,6 +1486,13 @@ class C17(Prop):
             body = b"x" * liberal(s, 10)
             ctx.add("req", ["d", "d", "d", dels([b"POST / HTTP/1.1\r\nContent-Length: " + s + b"\r\n\r\n" + body])], field="req-cl", text=s)
             ctx.add("resp", [dels([b"HTTP/1.1 200 OK\r\nContent-Length: " + s + b"\r\n\r\n" + body])], field="resp-cl", text=s)
+            if len(s) <= 2 or rng.random() < 0.3:
+                # Content-Length decides the framing of a response even next to Transfer-Encoding: chunked, so it
+                # is parsed (and must be refused when malformed) there too
+                te = rng.choice([b"Transfer-Encoding: chunked", b"transfer-encoding: gzip, Chunked"])
+                cl = b"Content-Length: " + s
+                hh = [te, cl] if rng.random() < 0.5 else [cl, te]
+                ctx.add("resp", [dels([b"HTTP/1.1 200 OK\r\n" + b"\r\n".join(hh) + b"\r\n\r\n" + b"x" * liberal(s, 10)])], field="resp-cl", text=s)
             ctx.add("resp", [dels([b"HTTP/1.1 " + s + b" OK\r\n\r\n"])], field="status", text=s)
             body = b"x" * liberal(s, 16)
             ctx.add("resp", [dels([CHUNK_PREFIX + s + b"\r\n" + body + b"\r\n0\r\n\r\n"])], field="chunk", text=s)
@@ -1547,6 +1619,26 @@ class C18(Prop):
             for _ in range(nv):
                 hs2 = [(case_variants(rng, n.encode(), 1)[0].decode(), case_variants(rng, v.encode(), 1)[0].decode()) for n, v in m["hs"]]
                 ctx.add("dec", [hdrs_spec(hs2), m["args"][1]], group=g, hs=hs2, dmg=m["dmg"], plain=m["plain"])
+        # one coding per Content-Encoding line in its plainest spelling, then the variants: a shortcut keyed on
+        # an exact spelling of one line shows here
+        for stack in (["zlib", "gzip"], ["raw", "gzip"], ["gzip", "gzip"], ["gzip", "zlib"], ["gzip", "zlib", "gzip"], ["gzip"], ["zlib"]):
+            for _ in range(ctx.n(2, 10)):
+                plain = G.gen_plain(rng)
+                data = plain
+                for c in stack:
+                    data = G.CODERS[c](rng, data)
+                hs = [("Content-Encoding", G.TOKEN_OF[c]) for c in stack]
+                if rng.random() < 0.5:
+                    hs.insert(rng.randint(0, len(hs)), ("X-A", "gzip"))
+                cid = ctx.add("dec", [hdrs_spec(hs), hx(data)], hs=hs, dmg=None, plain=plain)
+                g = ("case", "dec", cid)
+                ctx.groups.setdefault(g, []).append(cid)
+                for k in range(len(hs)):
+                    for n2 in ({hs[k][0], hs[k][0].upper(), hs[k][0].lower()}):
+                        for v2 in ({hs[k][1].upper(), hs[k][1].capitalize(), hs[k][1][:-1] + hs[k][1][-1].upper()}):
+                            hs2 = list(hs)
+                            hs2[k] = (n2, v2)
+                            ctx.add("dec", [hdrs_spec(hs2), hx(data)], group=g, hs=hs2, dmg=None, plain=plain)
         for _ in range(ctx.n(150, 1500)):
             cid = add_text_case(ctx)
             m = ctx.meta[cid]
@@ -1714,6 +1806,7 @@ def run(prop_id, tier, seed, replay=None):
 
     tie_bad, rel_bad, known_hits = [], [], {}
     unmodelled = 0
+    inflate_stats = {"im": 0, "is": 0, "ig": 0, "examples": []}
     # the corpus (inputs that once told a broken tree from the real one; tools/seeded.py corpus) runs first,
     # through the model/implementation comparison only: its cases carry no generator metadata
     cctx = Ctx(prop_id, tier, seed)
@@ -1739,12 +1832,25 @@ def run(prop_id, tier, seed, replay=None):
                     corpus_bad.append((prof, cid, f"model and implementation differ on a corpus case ({prof}): impl={a[:300]} model={b[:300]}"))
     impl_by_profile = {}
     for prof in P.profiles:
-        impl, model = vlib.run_sides(os.path.join(work, prof), ctx.cases, prof)
+        # cases marked impl_only (inputs of a size the list-based model needs minutes for) are run on the
+        # implementation alone and judged by the property's relations; they are counted in the evidence
+        both = [c for c in ctx.cases if not ctx.meta[c[0]].get("impl_only")]
+        solo = [c for c in ctx.cases if ctx.meta[c[0]].get("impl_only")]
+        impl, model = vlib.run_sides(os.path.join(work, prof), both, prof)
+        if solo:
+            impl.update(vlib.run_sides(os.path.join(work, prof + "-impl-only"), solo, prof, sides=("impl",))[0])
         impl_by_profile[prof] = impl
-        missing = [c[0] for c in ctx.cases if c[0] not in impl or c[0] not in model]
+        for cid, (_, diag) in model.items():
+            if diag.startswith("im="):
+                d = fields_of(diag)
+                for k in ("im", "is", "ig"):
+                    inflate_stats[k] += int(d.get(k, 0))
+                if d.get("igl"):
+                    inflate_stats["examples"] = (inflate_stats["examples"] + d["igl"].split(","))[:5]
+        missing = [c[0] for c in both if c[0] not in impl or c[0] not in model] + [c[0] for c in solo if c[0] not in impl]
         if missing:
             raise SystemExit(f"missing outputs for {len(missing)} cases, e.g. {missing[:3]}")
-        for cid, kind, args in ctx.cases:
+        for cid, kind, args in both:
             a, b = P.project(ctx, cid, impl[cid][0]), P.project(ctx, cid, model[cid][0])
             if "generr:needs-fold" in model[cid][0]:
                 unmodelled += 1          # header folding on generate is not modelled: no comparison
@@ -1777,6 +1883,9 @@ def run(prop_id, tier, seed, replay=None):
         for prof, ids, msg in rel_bad:
             mf.write(f"REL {prof} {ids} {ctx.meta[ids[-1]]['kind']} {ctx.meta[ids[-1]]['args']} :: {msg}\n")
 
+    if inflate_stats["ig"]:
+        log(f"[{prop_id}] MODEL-GAP (dependency model, not a verdict): Model/Inflate.v disagreed with flate2 on {inflate_stats['ig']} "
+            f"stream(s), e.g. {inflate_stats['examples'][:2]}; those cases were decided with the library's answer")
     # ---- verdict
     for kid, hits in sorted(known_hits.items()):
         e = known_entry(kid)
@@ -1847,6 +1956,9 @@ def run(prop_id, tier, seed, replay=None):
                 "non-trivial = distinct (kind, arguments) on which the implementation got past the first element (not an immediate rejection)",
         "traces_validated_against_impl": len(ctx.cases) * len(P.profiles),
         "not_compared_needs_folding": unmodelled,
+        "implementation_only_cases": sum(1 for m in ctx.meta.values() if m.get("impl_only")),
+        "inflate_model_vs_flate2": {"stream_decodes_by_the_coq_model": inflate_stats["im"], "skipped_too_large": inflate_stats["is"],
+                                    "disagreements_with_the_library": inflate_stats["ig"], "examples": inflate_stats["examples"]},
         "tie_mismatches": len(tie_bad), "relation_failures": len(rel_bad),
         "corpus_cases": len(cctx.cases), "corpus_mismatches": len(corpus_bad),
         "known_finding_hits": {k: len(v) for k, v in known_hits.items()},
